@@ -50,7 +50,7 @@ Definition parse_state (p : bytes) : res state_resp :=
     s_sleep := tb b10 1; s_fahrenheit := fahrenheit;
     s_indoor := parse_temperature b11 (N.land b15 15) fahrenheit;
     s_outdoor := parse_temperature b12 (N.shiftr b15 4) fahrenheit;
-    s_filter := tb b13 32; s_display := negb (b14 =? 112);
+    s_filter := tb b13 32; s_display := negb (N.land b14 112 =? 112);
     s_humidity := None; s_freeze := None |} in
   if (length p <? 20)%nat then Ok base else
   let hum := Some (N.land (nthb p 19) 127) in
